@@ -25,10 +25,10 @@ BUDGET_S = {"quick": 20, "thorough": 500}
 FLOORS = {
     "quick": {"evaluations": 3000, "distinct": 300,
               "counters": {"buffer_rule_checks": 1500, "dump_checks": 800, "with_empty_pieces": 100,
-                           "module_checks": 200}},
+                           "module_checks": 200, "module_history_steps": 300}},
     "thorough": {"evaluations": 60000, "distinct": 5000,
                  "counters": {"buffer_rule_checks": 30000, "dump_checks": 16000,
-                              "with_empty_pieces": 2000, "module_checks": 4000}},
+                              "with_empty_pieces": 2000, "module_checks": 4000, "module_history_steps": 6000}},
 }
 
 
@@ -121,10 +121,16 @@ def check_case(ctx, case, tmpdir, is_async=False):
     ctx.count("dump_checks")
     if "".join(wo.parts) != text:
         viol("dump:writeonly", f"dump(object without writelines) {wo.parts!r} != {text!r}")
-    wo = WriteOnly()
-    get().stream(data()).dump(wo, encoding="utf-8")
-    if b"".join(wo.parts).decode("utf-8") != text:
-        viol("dump:writeonly-encoded", "encoded dump to object without writelines differs")
+    for enc in ("utf-8", "utf-16"):
+        wo = WriteOnly()
+        r = util.capture(lambda: get().stream(data()).dump(wo, encoding=enc))
+        ctx.count("dump_checks")
+        if not r.ok:
+            viol("dump:writeonly-encoded", f"encoded dump({enc}) to an object without writelines raised {r!r}")
+        elif not all(isinstance(x, bytes) for x in wo.parts):
+            viol("dump:writeonly-encoded", f"encoded dump({enc}) wrote non-bytes pieces {[type(x).__name__ for x in wo.parts[:4]]}")
+        elif b"".join(wo.parts).decode(enc) != text:
+            viol("dump:writeonly-encoded", f"encoded dump({enc}) to object without writelines differs")
     # module
     if not is_async:
         mo = util.capture(lambda: str(get().make_module(data())))
@@ -132,6 +138,27 @@ def check_case(ctx, case, tmpdir, is_async=False):
         ctx.ev()
         if not mo.ok or mo.value != text:
             viol("module:str", f"str(make_module(vars)) {mo!r} != render {text!r}")
+        # entry points stay in agreement across a history: the default module gets cached
+        # (template.module, imports), then a global the template reads changes
+        t = get()
+        seq = []
+        for step in range(3):
+            a = util.capture(lambda: t.render())
+            b = util.capture(lambda: str(t.make_module()))
+            c = util.capture(lambda: "".join(t.generate()))
+            d = util.capture(lambda: str(t.module)) if step == 0 else None
+            ctx.ev(3)
+            ctx.count("module_history_steps")
+            if not (outcome_key(a) == outcome_key(b) == outcome_key(c)):
+                viol("module:stale-after-global-change" if step else "module:no-vars",
+                     f"step {step}: render() {a!r} / str(make_module()) {b!r} / generate {c!r}")
+                break
+            # change every global the set of templates may read
+            for gname in list(env.globals):
+                if isinstance(env.globals[gname], str):
+                    env.globals[gname] = env.globals[gname] + f"#{step}"
+            env.globals["g"] = f"G{step}"
+            t.globals["p"] = f"tp{step}"
 
 
 def add_unicode(case):
